@@ -192,6 +192,10 @@ func (r *Report) Decide(verifDir string, replay func(o *Obligation) (path string
 		gs = append(gs, g)
 	}
 	sort.Strings(gs)
+	seenFunc := map[string]bool{}
+	for g := range seenGroups {
+		seenFunc[groupFunc(g)] = true
+	}
 	for _, g := range gs {
 		if seenGroups[g] == 0 {
 			if unexportedFuncGroup(g) && staleUnexported[groupFunc(g)] {
@@ -201,6 +205,12 @@ func (r *Report) Decide(verifDir string, replay func(o *Obligation) (path string
 					staleSeen[groupFunc(g)] = true
 					out.Undecided = append(out.Undecided, "STALE-CONTRACT "+groupFunc(g)+": unexported helper no longer exists; its obligations are dropped, callers are checked against the current code")
 				}
+				continue
+			}
+			if safetyKindGroup(g) && seenFunc[groupFunc(g)] {
+				// the function is still verified (its other groups are there) but no longer contains
+				// any operation of this kind - an index, a dereference, a call with a precondition, a
+				// store was removed: nothing is left to prove, nothing is violated
 				continue
 			}
 			out.Claimed++
@@ -456,4 +466,19 @@ func manifestLevel(verifDir, prop string) (category, text string) {
 		}
 	}
 	return "", ""
+}
+
+
+// safetyKindGroup: groups of per-operation safety obligations; their number follows the code (one
+// per index expression, dereference, call, store), so a group can legitimately become empty.
+func safetyKindGroup(g string) bool {
+	i := strings.LastIndex(g, "/")
+	if i < 0 {
+		return false
+	}
+	switch g[i+1:] {
+	case "bounds", "nilderef", "typeassert", "divzero", "callpanic", "nilcall", "makeslice", "nilmap", "frame", "pre@callsite", "extpanic", "panic", "overflow":
+		return true
+	}
+	return false
 }
